@@ -658,12 +658,13 @@ func (server *Server) registerCoreExecutors() {
 			return nil, err
 		}
 
-		start, startEx, err := nextRangeScoreIndexArgument(cmd, "start", args)
+		// The start and stop arguments are scores with the BYSCORE option, which follows them, and indexes without it.
+		startArg, err := nextStringArgument(cmd, "start", args)
 		if err != nil {
 			return nil, err
 		}
 
-		stop, stopEx, err := nextRangeScoreIndexArgument(cmd, "stop", args)
+		stopArg, err := nextStringArgument(cmd, "stop", args)
 		if err != nil {
 			return nil, err
 		}
@@ -674,12 +675,29 @@ func (server *Server) registerCoreExecutors() {
 		}
 
 		if opt.BYSCORE {
-			opt.MINEXCLUSIVE = startEx
-			opt.MAXEXCLUSIVE = stopEx
-			return server.userCommandHandler.ZRangeByScore(conn, key, start, stop, opt)
+			min, minEx, err := rangeScoreArgument(cmd, "start", startArg)
+			if err != nil {
+				return nil, err
+			}
+			max, maxEx, err := rangeScoreArgument(cmd, "stop", stopArg)
+			if err != nil {
+				return nil, err
+			}
+			opt.MINEXCLUSIVE = minEx
+			opt.MAXEXCLUSIVE = maxEx
+			return server.userCommandHandler.ZRangeByScore(conn, key, min, max, opt)
 		}
 
-		return server.userCommandHandler.ZRange(conn, key, int(start), int(stop), opt)
+		start, err := rangeIndexArgument(cmd, "start", startArg)
+		if err != nil {
+			return nil, err
+		}
+		stop, err := rangeIndexArgument(cmd, "stop", stopArg)
+		if err != nil {
+			return nil, err
+		}
+
+		return server.userCommandHandler.ZRange(conn, key, start, stop, opt)
 	})
 
 	server.RegisterExexutor("ZREVRANGE", func(conn *Conn, cmd string, args Arguments) (*Message, error) {
